@@ -67,12 +67,14 @@ func vkStmtsFor(x, tk, fv, fu string, total, storageRows int, lo, hi int64) []vk
 		{"showMeasurements", "SHOW MEASUREMENTS", func(r vkResult) string { return vkWantRows(r, 2) }},
 		{"explain", "EXPLAIN SELECT count(" + fv + ") FROM " + x, func(r vkResult) string { return "" }},
 		{"storageRead", fmt.Sprintf("storage %d %d", lo, hi), func(r vkResult) string { return vkWantRows(r, storageRows) }},
+		{"storageGroupNone", fmt.Sprintf("storage %d %d none", lo, hi), func(r vkResult) string { return vkWantRows(r, storageRows) }},
+		{"storageGroupBy", fmt.Sprintf("storage %d %d by", lo, hi), func(r vkResult) string { return vkWantRows(r, storageRows) }},
 	}
 }
 
 func vkExecRetry(cl *vkCluster, node int, db, text string) vkResult {
 	r := vkExec(cl, node, db, text)
-	for try := 0; try < 3 && r.Err != "" && (strings.Contains(r.Err, "timeout") || strings.Contains(r.Err, "deadline")); try++ {
+	for try := 0; try < 5 && r.Err != "" && (strings.Contains(r.Err, "timeout") || strings.Contains(r.Err, "deadline")); try++ {
 		// the cluster's internal timeouts are 2 s; on a heavily loaded machine a fault-free request can exceed them
 		time.Sleep(500 * time.Millisecond)
 		r = vkExec(cl, node, db, text)
@@ -82,8 +84,12 @@ func vkExecRetry(cl *vkCluster, node int, db, text string) vkResult {
 
 func TestVerifC05LateReply(t *testing.T) {
 	stats := verifkit.For("C05", "TestVerifC05LateReply",
-		"bed K: a fresh database (RF 1..2, three hourly groups) holds two measurements with different tag keys and field names (one field name per measurement that no other case uses). Phase A: one or two statements over the first measurement (one per remote-request kind: field types, field dimensions, iterator creation, iterator cost, measurement names, tag keys, tag values, series listing, storage read) run while one or both remote nodes answer later than the shard reader timeout (or have their reply cut); the result must equal the fault-free result or be an error. Phase B: with all faults cleared, one statement of EVERY kind over the second measurement runs at once, in a drawn order, on the same coordinator; each must return exactly its fault-free result (itself cross-checked against what was written). non-trivial = a slow or cut node was asked to serve a request in phase A; distinct = (rf, coordinator, phase A kinds, fault kinds, phase B order prefix)")
+		"bed K: a fresh database (RF 1..2, three hourly groups) holds two measurements with different tag keys and field names (one field name per measurement that no other case uses). Phase A: two to five statements over the first measurement (the remote request type that meets the slow owner is drawn first, then a statement that sends it; kinds: field types, field dimensions, iterator creation, iterator cost, measurement names, tag keys, tag values, series listing, storage ReadFilter and ReadGroup) run while one or both remote nodes answer later than the shard reader timeout (1 s here) or have their reply cut, for every request or only for one of the request types the statement sends to that node; the result must equal the fault-free result or be an error. Phase B: with all faults cleared, one statement of EVERY kind over the second measurement runs at once, in a drawn order, on the same coordinator; each must return exactly its fault-free result (itself cross-checked against what was written). non-trivial = a slow or cut node was asked to serve a request in phase A; distinct = (rf, coordinator, phase A kinds, fault kinds, phase B order prefix)")
 	defer stats.Flush()
+	// a short shard reader timeout keeps a slow owner cheap (each request to it costs one timeout), so that
+	// several statements per case can meet one
+	vkReaderTimeout = 1000 * time.Millisecond
+	slow := 1500 * time.Millisecond
 	cl, err := vkSharedCluster()
 	if err != nil {
 		vkSetupFailed(t, "cluster: %v", err)
@@ -134,6 +140,9 @@ func TestVerifC05LateReply(t *testing.T) {
 					nd.proxy.takeLog()
 				}
 				r := vkExecRetry(cl, coord, db, st.Text)
+				if vkIsTimeout(r.Err) {
+					vkSetupFailed(rt, "fault-free %q timed out repeatedly on a loaded machine (reader timeout %v): %s", st.Text, vkReaderTimeout, r.Err)
+				}
 				if r.Err != "" {
 					rt.Fatalf("%s fault-free %q on node %d failed: %s", verifkit.Sig("fault-free-query-error"), st.Text, coord, r.Err)
 				}
@@ -166,7 +175,6 @@ func TestVerifC05LateReply(t *testing.T) {
 				remotes = append(remotes, i)
 			}
 		}
-		which := rapid.IntRange(0, 2).Draw(rt, "slowNodes") // 0: first remote, 1: second remote, 2: both
 		owners := cl.shardOwners(db)
 		localOwns := false
 		for _, os := range owners {
@@ -176,29 +184,52 @@ func TestVerifC05LateReply(t *testing.T) {
 				}
 			}
 		}
-		na := rapid.IntRange(1, 2).Draw(rt, "phaseAStatements")
+		// every (statement, remote node, request type) that occurs fault-free; phase A draws the request type
+		// first, so that every kind of remote request meets a slow owner equally often
+		type vkTarget struct {
+			ai, node int
+			typ      byte
+		}
+		byType := map[byte][]vkTarget{}
+		var types []byte
+		for ai := range as {
+			for _, i := range remotes {
+				for _, ty := range atypes[ai][i] {
+					if byType[ty] == nil {
+						types = append(types, ty)
+					}
+					byType[ty] = append(byType[ty], vkTarget{ai, i, ty})
+				}
+			}
+		}
+		sort.Slice(types, func(a, b int) bool { return types[a] < types[b] })
+		if len(types) == 0 {
+			vkSetupFailed(rt, "no remote request was seen in the fault-free runs (rf=%d, owners %v)", rf, owners)
+		}
+		na := rapid.IntRange(2, 5).Draw(rt, "phaseAStatements")
 		var akinds []string
 		var aOutcome []string
 		var pending []string // judged after the faults are cleared
 		faultyAsked := false
 		for k := 0; k < na; k++ {
-			ai := rapid.IntRange(0, len(as)-1).Draw(rt, "phaseAStmt")
+			ty := rapid.SampledFrom(types).Draw(rt, "slowRequestType")
+			tg := byType[ty][rapid.IntRange(0, len(byType[ty])-1).Draw(rt, "target")]
+			ai := tg.ai
 			st := as[ai]
-			akinds = append(akinds, st.Kind)
-			for j, i := range remotes {
+			akinds = append(akinds, fmt.Sprintf("%s/type%d", st.Kind, ty))
+			bothSlow := rapid.IntRange(0, 2).Draw(rt, "bothRemotesSlow") == 0
+			for _, i := range remotes {
 				f := vkFault{Kind: "up"}
-				if which == 2 || which == j {
+				if i == tg.node || bothSlow {
 					if rapid.IntRange(0, 9).Draw(rt, "faultKind") < 7 {
-						f = vkFault{Kind: "delay", Delay: 2600 * time.Millisecond}
+						f = vkFault{Kind: "delay", Delay: slow}
 					} else {
 						f = vkFault{Kind: "cut", Bytes: int64(rapid.SampledFrom([]int{0, 1, 5, 9, 10, 17, 30, 60}).Draw(rt, "cutBytes"))}
 					}
-					// the fault hits every request to the node, or only the requests of one of the types this
-					// statement sends to it (a node that is slow for one kind of lookup)
-					if ts := atypes[ai][i]; len(ts) > 0 {
-						if ti := rapid.IntRange(0, len(ts)).Draw(rt, "onlyType"); ti > 0 {
-							f.OnlyType = ts[ti-1]
-						}
+					// the fault hits only the requests of the drawn type (a node that is slow for one kind of lookup),
+					// or every request to the node
+					if rapid.IntRange(0, 5).Draw(rt, "allTypes") > 0 {
+						f.OnlyType = ty
 					}
 				}
 				faults[i] = f
@@ -224,7 +255,7 @@ func TestVerifC05LateReply(t *testing.T) {
 			case st.Kind == "explain":
 				// the cost estimate of EXPLAIN is not a query result; an estimate that leaves out a shard is not what the property speaks about
 				aOutcome = append(aOutcome, "explain-differs")
-			case len(r.Rows) == 0 && st.Kind != "storageRead" && !localOwns:
+			case len(r.Rows) == 0 && !strings.HasPrefix(st.Kind, "storage") && !localOwns:
 				stats.Exclude("maptype-rpc-failure-yields-empty-result")
 				aOutcome = append(aOutcome, "excluded-known")
 			default:
@@ -251,6 +282,9 @@ func TestVerifC05LateReply(t *testing.T) {
 			st := bs[bi]
 			bkinds = append(bkinds, st.Kind)
 			r := vkExecRetry(cl, coord, db, st.Text)
+			if vkIsTimeout(r.Err) {
+				vkSetupFailed(rt, "%q with every node up timed out repeatedly on a loaded machine (reader timeout %v): %s", st.Text, vkReaderTimeout, r.Err)
+			}
 			if r.Err != "" {
 				rt.Fatalf("%s %q on node %d with every node up failed (%s) right after %v ran against slow/cut owners %v (rf=%d)",
 					verifkit.Sig("fault-free-query-error-after-slow-owner"), st.Text, coord, r.Err, akinds, fkinds, rf)
